@@ -108,6 +108,9 @@ func (op *FsTxn) GetInodeInumFree(inum common.Inum) *inode.Inode {
 }
 
 func (op *FsTxn) GetInodeInum(inum common.Inum) *inode.Inode {
+	if inum >= op.Fs.Super.NInode() {
+		return nil
+	}
 	ip := op.GetInodeInumFree(inum)
 	if ip == nil {
 		return nil
